@@ -140,7 +140,7 @@ end DriverKafka
 partial def loop (h : IO.FS.Stream) (out : IO.FS.Stream) : IO Unit := do
   let line ← h.getLine
   if line.isEmpty then return ()
-  out.putStrLn (DriverKafka.dispatch (line.trimRight))
+  out.putStrLn (DriverKafka.dispatch (line.trimAsciiEnd.toString))
   loop h out
 
 def main : IO Unit := do
